@@ -74,10 +74,9 @@ Proof.
 Qed.
 
 Lemma admissible_parts e : admissible e = true ->
-  no_cell_under_not e = true /\ no_colon_hash e = true /\ nonzero e = true.
+  no_cell_under_not e = true /\ True /\ nonzero e = true.
 Proof.
-  unfold admissible. intros H. apply andb_prop in H. destruct H as [H Hn].
-  apply andb_prop in H. destruct H as [Hc Hg]. auto.
+  unfold admissible. intros H. apply andb_prop in H. destruct H as [Hc Hn]. auto.
 Qed.
 
 Lemma parsed_table_ok mc cells rk : parsed_table mc cells -> table_ranked mc rk -> table_ok cells rk.
